@@ -306,7 +306,9 @@ impl Ctx {
                 let hi = n * (c + 1) / chunks;
                 for i in lo..hi {
                     watchdog_touch();
-                    f(i, &mut st);
+                    if let Err(p) = catch(|| f(i, &mut st)) {
+                        st.fail(Fail::new(panic_key(&p), p), json!({"index": i}));
+                    }
                 }
                 st
             })
@@ -363,13 +365,14 @@ impl Ctx {
                     if expensive && !failed.get() && stop.load(Ordering::Relaxed) {
                         return Ok(());
                     }
+                    // a panic inside the implementation (or the harness) is a failure of the case, not of the run
                     let r = if failed.get() {
                         let mut scratch = Stats::new();
-                        test(&v, &mut scratch)
+                        catch(|| test(&v, &mut scratch)).unwrap_or_else(|p| Err(Fail::new(panic_key(&p), p)))
                     } else {
                         let mut s = st.borrow_mut();
                         s.eval();
-                        test(&v, &mut s)
+                        catch(|| test(&v, &mut s)).unwrap_or_else(|p| Err(Fail::new(panic_key(&p), p)))
                     };
                     match r {
                         Ok(()) => Ok(()),
@@ -385,7 +388,7 @@ impl Ctx {
                     Ok(()) => {}
                     Err(TestError::Fail(_, v)) => {
                         let mut scratch = Stats::new();
-                        let f = match test(&v, &mut scratch) {
+                        let f = match catch(|| test(&v, &mut scratch)).unwrap_or_else(|p| Err(Fail::new(panic_key(&p), p))) {
                             Err(f) => f,
                             Ok(()) => Fail::new("flaky", "shrunk value no longer fails (non-deterministic check?)"),
                         };
@@ -513,6 +516,12 @@ impl Ctx {
             0
         }
     }
+}
+
+/// stable key of a panic message: `panic:<file>:<line>`
+pub fn panic_key(msg: &str) -> String {
+    let loc = msg.split("panicked at ").nth(1).and_then(|r| r.split(':').take(2).collect::<Vec<_>>().join(":").split_whitespace().next().map(|s| s.to_string())).unwrap_or_default();
+    format!("panic:{loc}")
 }
 
 pub fn sanitize(s: &str) -> String {
